@@ -44,7 +44,12 @@ CFG = dict(
           "changes a's membership (first / middle / last), the rest unrelated (Add X / Remove X pairs, removals of an absent range); Contains(a) again with no "
           "other address looked up in between, then a twice in a row and a / b alternating; N in {1,2,255,256,257,65535,65536,65537,131072} (thorough: also 2^24), "
           "list mode and map mode, 4- and 16-byte probes; the unrelated updates are shipped run-length encoded ('L' lines, '*n*obs,obs') and expanded by the driver, "
-          "so the extracted model and specification judge every answer (these lines are not sampled for the vm_compute cross-check)"),
+          "so the extracted model and specification judge every answer (these lines are not sampled for the vm_compute cross-check). "
+          "PLUS switches with the list dominated by ONE prefix length (36 quick / 288 thorough histories: exactly 254/255/256/257 entries of /32, /24, /8, /1, /16 or a "
+          "random length, with and without duplicates, optionally one removed or one entry of another length among them, the triggering Add of the same or of another "
+          "length, then lookups of ALL earlier ranges) and up-down-up histories (8 / 80: 2-3 cycles of >256 adds, removals down to 129/128/127/100/3/0, further "
+          "removals, >256 adds of OTHER ranges, then lookups of everything ever removed). A panic in Add/Remove/Contains is an outcome (result code 2 in the line and a "
+          "VIOL panic-in-... line), never a crash of the harness"),
     trusted_base=[HARNESS_TB, EXTRACT_TB,
                   "Lib/NetIP.v is my reading of net.IP.To4, net.IPMask.Size and binary.BigEndian.Uint32 (Go standard library); "
                   "it is exercised against the real functions through every Add/Remove/Contains of the harness"],
